@@ -466,6 +466,16 @@ func cmdReplay(args []string) int {
 			fmt.Println(l)
 		}
 	}
+	if os.Getenv("GFSIM_DUMP") != "" && r.World != nil {
+		// the generated world, for reading a replay by hand
+		for _, f := range r.World.Sc.Flows {
+			fmt.Printf("FLOW %s\n", f.Bytes())
+		}
+		for _, c := range r.World.Sc.Contacts {
+			b, _ := json.Marshal(r.World.Sc.ContactJSON(c, 0))
+			fmt.Printf("CONTACT %s\n", b)
+		}
+	}
 	for _, v := range r.Violations {
 		if v.Prop == rf.Property && v.Fingerprint == rf.Fingerprint {
 			if rf.LogDigest != "" && r.LogDigest != rf.LogDigest {
